@@ -678,6 +678,11 @@ package fpgo
 //@   ensures result: r0 != nil && fresh(r0) && len(*r0) == old(len(*streamSelf))
 //@   ensures permutation: forall(i, 0, len(*r0), 0 <= p[i] && p[i] < len(*r0) && (*r0)[i] == oldheap((*old(streamSelf))[p[i]]))
 //@   ensures receiver-keeps-view: len(*streamSelf) == old(len(*streamSelf)) && forall(i, 0, len(*streamSelf), (*streamSelf)[i] == old((*streamSelf)[i]))
+// the index relation is a function of the two positions only (opaque callback), so "ordered" and "stable" can be stated over the
+// result's positions: no later position is placed strictly before an earlier one, and positions the relation does not
+// distinguish keep their input order (this is what sort.SliceStable gives and sort.Slice does not)
+//@   ensures ordered-by-the-index-relation: forall2(i, 0, len(*r0), j, 0, len(*r0), i < j ==> !fn(j, i))
+//@   ensures stable: forall2(i, 0, len(*r0), j, 0, len(*r0), i < j && !fn(i, j) ==> p[i] < p[j])
 //@ twin (StreamDef).SortByIndex (StreamForInterfaceDef).SortByIndex prop C04,C19
 
 // ---------------------------------------------------------------------------------------------------
